@@ -4,7 +4,7 @@
    inspection variant of Gen/InspectGen.v and the run-space variant of Gen/RunSpaceGen.v. *)
 From Coq Require Import List String ZArith Bool Arith Lia.
 From SV Require Import Common.Prelude Model.Pipeline Model.PipelineLib Model.Inspect.
-From SV Require Model.RunSpace Model.Loader Proofs.Loader Gen.LoaderGen.
+From SV Require Model.RunSpace Model.Loader Proofs.Loader Gen.LoaderGen Model.Placement Proofs.Placement Gen.PlacementGen.
 From SV Require Import Model.Cli Gen.InspectGen Gen.RunSpaceGen Gen.CliGen Proofs.Cli.
 Import ListNotations.
 Local Open Scope string_scope.
@@ -336,6 +336,76 @@ Example ex_dry_spellings :
   map (fun y => Loader.load_dry LoaderGen.impl (Some y)) [Loader.YBool true; Loader.YInt 1; Loader.YStr "yes"; Loader.YInt 0; Loader.YStr ""; Loader.YNull; Loader.YBool false]
   = [true; true; true; false; false; false; false].
 Proof. reflexivity. Qed.
+(* ---------- the run-space flags of the command line act on the run space IN FORCE, wherever it is written (top level, under
+   `pipeline:`, --run-space-file; also with a second, ignored block under `pipeline:`).  Which block the loader prefers and which
+   block _run patches are read from the two source files on this run (hard obligations); under any other pair the statement is
+   false (refuted_when) ---------- *)
+Lemma gen_loader_reads_top_level_first : PlacementGen.loader_prio = Placement.TopFirst.
+Proof. reflexivity. Qed.
+Lemma gen_flags_patch_the_loader_block : PlacementGen.cli_patch = Placement.PatchLoaderBlock.
+Proof. reflexivity. Qed.
+Lemma gen_file_stored_at_top : PlacementGen.file_stored_at_top = true.
+Proof. reflexivity. Qed.
+Theorem C17_flags_act_on_the_run_space_in_force : forall fl d,
+  Placement.cli_run_space PlacementGen.loader_prio PlacementGen.cli_patch fl d = Placement.intended PlacementGen.loader_prio fl d.
+Proof.
+  intros fl d. rewrite gen_flags_patch_the_loader_block.
+  apply Proofs.Placement.patched_block_is_intended. exact gen_loader_reads_top_level_first.
+Qed.
+(* ... down to the specification the launch is planned from: blocks and combine untouched, the cap is the one given, a dry run
+   is requested *)
+Theorem C17_flags_reach_the_launch : forall fl d r,
+  Placement.has_flags fl = true ->
+  Placement.in_force PlacementGen.loader_prio (Placement.apply_file fl d) = Some r ->
+  exists r', Placement.cli_run_space PlacementGen.loader_prio PlacementGen.cli_patch fl d = Some r' /\
+    RunSpace.sp_blocks (fst (Loader.load LoaderGen.impl r')) = RunSpace.sp_blocks (fst (Loader.load LoaderGen.impl r)) /\
+    RunSpace.sp_combine (fst (Loader.load LoaderGen.impl r')) = RunSpace.sp_combine (fst (Loader.load LoaderGen.impl r)) /\
+    (forall z, Placement.f_cap fl = Some z -> RunSpace.sp_max_runs (fst (Loader.load LoaderGen.impl r')) = z) /\
+    (Placement.f_cap fl = None -> RunSpace.sp_max_runs (fst (Loader.load LoaderGen.impl r')) = RunSpace.sp_max_runs (fst (Loader.load LoaderGen.impl r))) /\
+    (Placement.f_dry fl = true -> snd (Loader.load LoaderGen.impl r') = true) /\
+    (Placement.f_dry fl = false -> snd (Loader.load LoaderGen.impl r') = snd (Loader.load LoaderGen.impl r)).
+Proof.
+  intros fl d r Hf Hr. rewrite gen_flags_patch_the_loader_block.
+  apply Proofs.Placement.flags_reach_the_launch; [exact gen_loader_reads_top_level_first | exact Hf | exact Hr].
+Qed.
+Theorem C17_run_space_file_wins : forall fl d r,
+  Placement.f_file fl = Some r -> Placement.in_force PlacementGen.loader_prio (Placement.apply_file fl d) = Some r.
+Proof. intros fl d r H. rewrite gen_loader_reads_top_level_first. apply Proofs.Placement.file_wins. exact H. Qed.
+(* composed with the gate: --run-space-dry-run on a document whose run space is in force executes nothing *)
+Theorem C17_dry_run_flag_reaches_the_gate : forall rq fl d r r',
+  Placement.f_dry fl = true ->
+  Placement.in_force PlacementGen.loader_prio (Placement.apply_file fl d) = Some r ->
+  Placement.cli_run_space PlacementGen.loader_prio PlacementGen.cli_patch fl d = Some r' ->
+  rs_dry rq = snd (Loader.load LoaderGen.impl r') ->
+  no_exec (snd (cli knobs rq)).
+Proof.
+  intros rq fl d r r' Hd Hr Hr' Hrq. apply (C17_run_space_dry_run rq). rewrite Hrq.
+  assert (Hf : Placement.has_flags fl = true) by (unfold Placement.has_flags; rewrite Hd; apply Bool.orb_true_r).
+  destruct (C17_flags_reach_the_launch fl d r Hf Hr) as [r2 [H1 [_ [_ [_ [_ [H6 _]]]]]]].
+  rewrite Hr' in H1. injection H1 as ->. exact (H6 Hd).
+Qed.
+Theorem C17_flags_top_always_refuted_when : PlacementGen.cli_patch = Placement.PatchTopAlways ->
+  exists fl d, Placement.cli_run_space Placement.TopFirst PlacementGen.cli_patch fl d <> Placement.intended Placement.TopFirst fl d.
+Proof.
+  intros H. rewrite H. exists Proofs.Placement.cap2, (Placement.mkDoc None (Some Proofs.Placement.three_runs)).
+  exact (proj1 Proofs.Placement.top_always_refuted).
+Qed.
+Theorem C17_flags_nested_if_present_refuted_when : PlacementGen.cli_patch = Placement.PatchNestedIfPresent ->
+  exists fl d, Placement.cli_run_space Placement.TopFirst PlacementGen.cli_patch fl d <> Placement.intended Placement.TopFirst fl d.
+Proof.
+  intros H. rewrite H. exists Proofs.Placement.cap2, (Placement.mkDoc (Some Proofs.Placement.three_runs) (Some Proofs.Placement.one_run)).
+  destruct Proofs.Placement.nested_if_present_refuted as [A B]. rewrite A, B. discriminate.
+Qed.
+Example ex_flags_every_placement :
+  map (fun d => option_map Loader.r_max_runs (Placement.cli_run_space PlacementGen.loader_prio PlacementGen.cli_patch Proofs.Placement.cap2 d))
+      [Placement.mkDoc (Some Proofs.Placement.three_runs) None; Placement.mkDoc None (Some Proofs.Placement.three_runs);
+       Placement.mkDoc (Some Proofs.Placement.three_runs) (Some Proofs.Placement.one_run); Placement.mkDoc None None]
+  = [Some (Some 2%Z); Some (Some 2%Z); Some (Some 2%Z); Some (Some 2%Z)].
+Proof. reflexivity. Qed.
+Print Assumptions C17_flags_act_on_the_run_space_in_force.
+Print Assumptions C17_flags_reach_the_launch.
+Print Assumptions C17_run_space_file_wins.
+Print Assumptions C17_dry_run_flag_reaches_the_gate.
 Print Assumptions C17_dry_run_spellings.
 Print Assumptions C17_written_dry_run_executes_nothing.
 Print Assumptions C17_full.
